@@ -281,6 +281,9 @@ var C03OpenFindings = []C03Finding{
 	{"C03-alias-shadows-or-self-reference", C03AliasShadowsOrSelfReference},
 	{"C03-list-concatenation-cast-to-pseudo-type", C03ListConcatenationWithCollect},
 	{"C03-aggregate-in-where", C03AggregateInWhere},
+	{"C03-chained-null-test", C03ChainedNullTest},
+	{"C03-with-where-before-expansion", C03WithWhereBeforeExpansion},
+	{"C03-parenthesised-variable-lookup-before-with", C03ParenthesisedVariableLookupBeforeWith},
 }
 
 // C03ExcludedBy returns the id of the first open finding whose shape the query has ("" = none).
@@ -404,8 +407,8 @@ func C03UnwindBeforeOptionalMatch(q *cypher.RegularQuery) bool {
 // enclosing query had to define them, so no frame ever qualifies and the conjunct is only placed by the
 // final "consume everything" step – after a WITH has pruned the bindings it reads (`n0.kind_ids` with no
 // n0 in scope). Shape: a MATCH whose WHERE contains labels(), a quantifier, or a reference to a path variable,
-// in a query part that ends in WITH or contains a non-leading OPTIONAL MATCH, or next to a pattern predicate
-// in the same WHERE (each of these puts a frame between the MATCH and the final select).
+// in a query part that ends in WITH, contains a non-leading OPTIONAL MATCH, or contains a pattern predicate
+// (each of these puts a frame between the MATCH and the final select).
 func C03SubselectPredicateBeforeWith(q *cypher.RegularQuery) bool {
 	cs := C03Clauses(q)
 	paths := c03PathVariables(cs)
@@ -422,8 +425,13 @@ func C03SubselectPredicateBeforeWith(q *cypher.RegularQuery) bool {
 			continue
 		}
 		// what cuts the bindings off: the WITH that ends the part, the aggregation frame of a non-leading
-		// OPTIONAL MATCH of the part, or the frame shift that a pattern predicate in the same WHERE causes
-		boundary := c03PartEndsWithWith(cs, i) || c03Contains(c.Match.Where, c03IsPatternPredicate)
+		// OPTIONAL MATCH of the part, or the frame shift that a pattern predicate of the part causes
+		boundary := c03PartEndsWithWith(cs, i)
+		for j := range cs {
+			if cs[j].Part == c.Part && cs[j].Match != nil && c03Contains(c03WhereOf(cs[j].Match), c03IsPatternPredicate) {
+				boundary = true
+			}
+		}
 		for _, j := range c03NonFirstOptional(cs) {
 			if cs[j].Part == c.Part {
 				boundary = true
@@ -521,14 +529,27 @@ func C03ShortestPathBoundEndpoint(q *cypher.RegularQuery) bool {
 				}
 			}
 			if hasShortest {
-				for v := range c03VariablesIn(c03WhereOf(c.Match)) {
-					if seen[v] {
-						return true
+				// a conjunct on bindings that exist before the shortest-path clause is attached to the first
+				// frame that has them – the shortest-path frame – even when it is written on a later MATCH
+				for _, other := range cs {
+					if other.Part == c.Part && other.Match != nil {
+						for v := range c03VariablesIn(c03WhereOf(other.Match)) {
+							if seen[v] {
+								return true
+							}
+						}
 					}
 				}
 				// the WHERE of the WITH before this part is placed in this part, and reads the WITH's frame
 				if pendingWithWhere {
 					return true
+				}
+				// a pattern predicate of the part has no dependency of its own and is consumed by the first
+				// frame built after it is seen – which may be the shortest-path frame
+				for _, other := range cs {
+					if other.Part == c.Part && other.Match != nil && c03Contains(c03WhereOf(other.Match), c03IsPatternPredicate) {
+						return true
+					}
 				}
 			}
 		}
@@ -832,19 +853,39 @@ func c03Conjuncts(where *cypher.Where) []cypher.Expression {
 // frame of the last pattern step that binds one of them. When one of the steps involved is a variable-length
 // expansion the conjunct can land inside the expansion's projection (or one of its lowered forms: exact-range
 // steps, direction selection, suffix pushdown) while still naming a binding of a fixed step that is only joined
-// later – `n0.properties …` / `e1.…` with no such FROM item. Shape: a query part that contains a variable-length
-// relationship and a MATCH WHERE conjunct in which two or more different variables occur. Not narrower: which
+// later – `n0.properties …` / `e1.…` with no such FROM item. Shape: a MATCH WHERE conjunct in which two or more
+// different variables occur, one of them an endpoint of a variable-length relationship of the same query part
+// (shortest-path patterns have their own findings). Not narrower: which
 // frame receives the conjunct depends on constraint balancing and on the lowerings chosen by the optimiser.
 func C03ExpansionConstraintSpansBindings(q *cypher.RegularQuery) bool {
 	cs := C03Clauses(q)
 	for _, part := range c03Parts(cs) {
-		varlen := false
+		// the endpoints of the variable-length steps of the part
+		endpoints := map[string]bool{}
 		for _, c := range cs {
-			if c.Part == part && c.Match != nil && c03HasVariableLength(c.Match.Pattern) {
-				varlen = true
+			if c.Part != part || c.Match == nil {
+				continue
+			}
+			for _, p := range c.Match.Pattern {
+				if p == nil || p.ShortestPathPattern || p.AllShortestPathsPattern {
+					continue
+				}
+				for i, el := range p.PatternElements {
+					rp, ok := el.AsRelationshipPattern()
+					if !ok || rp.Range == nil {
+						continue
+					}
+					for _, j := range []int{i - 1, i + 1} {
+						if j >= 0 && j < len(p.PatternElements) {
+							if np, isNode := p.PatternElements[j].AsNodePattern(); isNode && np.Variable != nil {
+								endpoints[np.Variable.Symbol] = true
+							}
+						}
+					}
+				}
 			}
 		}
-		if !varlen {
+		if len(endpoints) == 0 {
 			continue
 		}
 		for _, c := range cs {
@@ -852,8 +893,14 @@ func C03ExpansionConstraintSpansBindings(q *cypher.RegularQuery) bool {
 				continue
 			}
 			for _, conj := range c03Conjuncts(c.Match.Where) {
-				if len(c03VariablesIn(conj)) >= 2 {
-					return true
+				vars := c03VariablesIn(conj)
+				if len(vars) < 2 {
+					continue
+				}
+				for v := range vars {
+					if endpoints[v] {
+						return true
+					}
 				}
 			}
 		}
@@ -1297,7 +1344,8 @@ func C03StringPredicateOnID(q *cypher.RegularQuery) bool {
 
 // C03PropertyOfScalarAlias: `with 'a' as u … where u.name = …` – a property of a value that is not an entity.
 // DAWGS accepts it and emits `(s0.i0).properties` on a text / array column. Shape: a property lookup whose atom is
-// a variable that a WITH introduces as the alias of something other than a variable, or that an UNWIND introduces.
+// a variable that a WITH introduces as the alias of something other than a variable, or that an UNWIND introduces
+// (likewise labels / id / type / a kind test applied to it).
 func C03PropertyOfScalarAlias(q *cypher.RegularQuery) bool {
 	scalars := map[string]bool{}
 	C03WalkModel(q, func(n any, _ []any) bool {
@@ -1324,13 +1372,27 @@ func C03PropertyOfScalarAlias(q *cypher.RegularQuery) bool {
 	if len(scalars) == 0 {
 		return false
 	}
-	return c03Contains(q, func(n any) bool {
-		pl, ok := n.(*cypher.PropertyLookup)
-		if !ok || pl == nil {
-			return false
-		}
-		v, isVar := pl.Atom.(*cypher.Variable)
+	isScalar := func(e any) bool {
+		v, isVar := e.(*cypher.Variable)
 		return isVar && v != nil && scalars[v.Symbol]
+	}
+	return c03Contains(q, func(n any) bool {
+		switch t := n.(type) {
+		case *cypher.PropertyLookup:
+			return t != nil && isScalar(t.Atom)
+		case *cypher.KindMatcher:
+			return t != nil && isScalar(t.Reference)
+		case *cypher.FunctionInvocation:
+			// entity functions applied to the scalar: labels(x), id(x), type(x) …
+			if c03IsFunction(t, "labels", "id", "type", "startnode", "endnode") {
+				for _, a := range t.Arguments {
+					if isScalar(a) {
+						return true
+					}
+				}
+			}
+		}
+		return false
 	})
 }
 
@@ -1427,10 +1489,106 @@ func C03AggregateInWhere(q *cypher.RegularQuery) bool {
 				case *cypher.Where, *cypher.Match:
 					// a property map of a pattern is a WHERE conjunct in disguise
 					found = true
+				case *cypher.Conjunction, *cypher.Disjunction, *cypher.ExclusiveDisjunction:
+					// `return count(*) and count(*)`: the operands of a boolean connective are collected as
+					// constraints and end up in WHERE, wherever the connective stands
+					found = true
 				}
 			}
 		}
 		return true
 	})
 	return found
+}
+
+// C03ChainedNullTest: `x IS NULL IS NULL` is emitted without parentheses; IS [NOT] NULL is non-associative in
+// PostgreSQL's grammar, so the second test is a syntax error. Shape: a null test whose operand is a null test.
+func C03ChainedNullTest(q *cypher.RegularQuery) bool {
+	isNullTest := func(n any) bool {
+		cmp, ok := n.(*cypher.Comparison)
+		if !ok || cmp == nil {
+			return false
+		}
+		for _, p := range cmp.Partials {
+			if p != nil {
+				op := strings.ToLower(string(p.Operator))
+				if op == "is" || op == "is not" || strings.HasPrefix(op, "is ") {
+					return true
+				}
+			}
+		}
+		return false
+	}
+	found := false
+	C03WalkModel(q, func(n any, anc []any) bool {
+		if cmp, ok := n.(*cypher.Comparison); ok && cmp != nil && isNullTest(cmp) {
+			nulls := 0
+			for _, p := range cmp.Partials {
+				if p != nil && strings.HasPrefix(strings.ToLower(string(p.Operator)), "is") {
+					nulls++
+				}
+			}
+			if nulls > 1 || isNullTest(cmp.Left) {
+				found = true
+			}
+			if par, isPar := cmp.Left.(*cypher.Parenthetical); isPar && par != nil && false {
+				_ = par
+			}
+		}
+		return true
+	})
+	return found
+}
+
+// C03WithWhereBeforeExpansion: the WHERE of a WITH is placed in the next query part, by whichever frame first
+// has the bindings it reads. When that part opens with a variable-length pattern the conjunct is attached to the
+// expansion (its seed, its terminal test or a pushed-down suffix), which is rendered with frame references that
+// are not in scope there. Shape: a WITH that has a WHERE and is followed by a query part whose first reading
+// clause is a MATCH with a variable-length relationship.
+func C03WithWhereBeforeExpansion(q *cypher.RegularQuery) bool {
+	cs := C03Clauses(q)
+	for i, c := range cs {
+		if c.With == nil || c.With.Where == nil {
+			continue
+		}
+		for j := i + 1; j < len(cs); j++ {
+			if cs[j].Part != c.Part+1 {
+				break
+			}
+			if cs[j].Match != nil {
+				if c03HasVariableLength(cs[j].Match.Pattern) {
+					return true
+				}
+				break
+			}
+			if cs[j].Kind == "unwind" {
+				continue
+			}
+			break
+		}
+	}
+	return false
+}
+
+// C03ParenthesisedVariableLookupBeforeWith: `where (n).name = 'a'` – the conjunct on a parenthesised variable is
+// only placed by the final select; a WITH in between that does not project n leaves `((n0)).properties` dangling.
+// Shape: a property lookup on a parenthesised expression in the WHERE of a MATCH whose query part ends in WITH.
+func C03ParenthesisedVariableLookupBeforeWith(q *cypher.RegularQuery) bool {
+	cs := C03Clauses(q)
+	for i, c := range cs {
+		if c.Match == nil || c.Match.Where == nil || !c03PartEndsWithWith(cs, i) {
+			continue
+		}
+		if c03Contains(c.Match.Where, func(n any) bool {
+			pl, ok := n.(*cypher.PropertyLookup)
+			if !ok || pl == nil {
+				return false
+			}
+			_, isParen := pl.Atom.(*cypher.Parenthetical)
+			return isParen
+		}) {
+			return true
+		}
+	}
+	return false
 }
